@@ -87,11 +87,11 @@ def arg_src(a):
     raise AssertionError(a)
 
 
-def nestable(spec, first, last):
+def nestable(spec, first, last, allow_debug=False):
     """May the call sites first..last be moved into an inner DAG?  (plain functions, no unpacking in or around the block)"""
     for i in range(first, last + 1):
         fs = spec["fns"][spec["nodes"][i]["fn"]]
-        if fs.get("unpack_to") or fs.get("setup") or fs.get("debug"):
+        if fs.get("unpack_to") or fs.get("setup") or (fs.get("debug") and not allow_debug):
             return False
     for nd in spec["nodes"]:
         for a in list(nd.get("args", [])) + list(nd.get("kwargs", {}).values()) + ([nd["active"]] if nd.get("active") else []):
